@@ -49,11 +49,12 @@ def make_spacetime(desc, seed):
 def grid_param(desc, N):
     kind = desc[0]
     if kind == 'mink':
-        # anisotropic spacing (dx : dy : dz = 15 : 12 : 10) on the same
+        # anisotropic spacing (dx : dy : dz = 45 : 40 : 36) on the same
         # periodic box: a per-axis spacing mix-up is invisible on the
-        # cubic grids of the other families
+        # cubic grids of the other families (kept moderate: the memory
+        # of a task grows with the number of points)
         g = fields.grid(N)
-        g['Ny'], g['Nz'] = (5 * N) // 4, (3 * N) // 2
+        g['Ny'], g['Nz'] = (9 * N) // 8, (5 * N) // 4
         g['dy'], g['dz'] = 2 * np.pi / g['Ny'], 2 * np.pi / g['Nz']
         return g, 'periodic'
     if kind in ('lattice', 'scaled'):
